@@ -78,9 +78,7 @@ def run(chk, tier):
     Lc, Lr, Li = (P("L%d" % on[k]) for k in ("coverage_pattern_number", "radials", "iter"))
     e0 = outer["entry"]
     chk.ob("R-LIN", SCAN + "#records", e0[on["coverage_pattern_number"]] == NONE and listalg.seq(e0[on["radials"]]) == [], "starts with no VCP and no radials", w, key="init")
-    chk.ob("R-LIN", SCAN + "#records", listalg.seq(e0[on["iter"]]) is None and e0[on["iter"]] == call("<I as core::iter::traits::collect::IntoIterator>::into_iter", call(RECORDS, selfp))
-           or e0[on["iter"]] == ("call", RECORDS, (selfp,)) or (e0[on["iter"]][0] == "call" and e0[on["iter"]][1].endswith("into_iter") and e0[on["iter"]][2] == (call(RECORDS, selfp),)),
-           "iterates File::records(self) in order", w, key="source")
+    chk.ob("R-LIN", SCAN + "#records", iter_source(e0[on["iter"]]) == call(RECORDS, selfp), "iterates File::records(self) in order", w, key="source")
     rec = somev(call_next(Li))
     nexts = 0
     for conds, kind, val in outer["paths"]:
